@@ -71,6 +71,32 @@ def random_storm(rng):
     return ex + calls
 
 
+def master_client_exec(rng, length):
+    """the public path: a real MasterClient fed by a stand-in master over gRPC; the master drops the stream
+    once or twice (each reconnect costs >= 1 s of real time: few executions)"""
+    ex = [dict(reset_line(rng.choice(["dc1", "dc2"])), mc=True)]
+    live = []
+    nrec = 0
+    for i in range(length):
+        r = rng.random()
+        v = rng.choice(VIDS)
+        if r < 0.5 or not live:
+            u = rng.choice(LOCS)[0]
+            ex.append({"ev": "add", "v": v, "u": u})
+            live.append((v, u))
+        elif r < 0.75:
+            v, u = rng.choice(live)
+            ex.append({"ev": "del", "v": v, "u": u})
+            live = [x for x in live if x != (v, u)]
+        elif nrec < 2 and i > 2:
+            nrec += 1
+            ex.append({"ev": "reconnect", "order": rng.choice(["fwd", "rev"])})
+    if nrec == 0:
+        ex.append({"ev": "reconnect", "order": "rev"})
+        ex.append({"ev": "add", "v": 1, "u": rng.choice(LOCS)[0]})
+    return ex
+
+
 def dense_storm(rng, nw, nr):
     """a long storm over one volume with 5 locations of the client's own data center (every element read
     is prepended, which makes a lookup long enough to overlap an in-place delete): writers delete/add at
@@ -146,6 +172,8 @@ def run(ctx):
     rng = random.Random(ctx.seed)
     for _ in range(1500 if th else 150):
         execs.append(random_sequential(rng, rng.randint(10, 30)))
+    for _ in range(40 if th else 6):
+        execs.append(master_client_exec(rng, rng.randint(6, 14)))
     storms = [random_storm(rng) for _ in range(2000 if th else 200)]
     storms += [dense_storm(rng, 60, 100) for _ in range(120 if th else 10)]
     binp = ctx.build("c35")
@@ -164,11 +192,12 @@ def run(ctx):
                 "storms (2 writers, 2 readers: short ones of <= 5 calls each and long ones of 60 updates / 100 lookups each "
                 "over 5 same-data-center locations, logged as call/ret and linearized by TLC); after every "
                 "update the driver looks up every volume through all 4 read paths and re-reads every held slice; "
-                "thorough: the storms again under the race detector. non-trivial = contains a delete and >= 5 events; "
+                "a few executions drive a real MasterClient over gRPC against a stand-in master that drops the stream (reconnect) "
+                "and resends its registry; thorough: the storms again under the race detector. non-trivial = contains a delete and >= 5 events; "
                 "distinct by hash of the recorded execution" % (4 if th else 3, 6 if th else 4))
     ctx.exhaustive = True
     ctx.assumptions += [
         "a location is identified by its url; the data center of a url does not change within an execution",
-        "notifications are applied through vidMap.addLocation/deleteLocation exactly as MasterClient does for NewVids/DeletedVids; the gRPC stream and MasterClient's reconnect logic are not driven",
+        "most executions apply notifications through vidMap.addLocation/deleteLocation exactly as MasterClient does for NewVids/DeletedVids; a few go through a real MasterClient and a stand-in master (KeepConnected stream, reconnect, registry resent), synchronised by a barrier volume id",
         "the order of concurrent events is the order of the driver's log mutex",
     ]
